@@ -227,6 +227,20 @@ def real_value(v, table=TABLE, share=None):
 
 def _real_value(v, table, share):
     k = v["k"]
+    if k == "cyc":      # a finite value that contains itself (not a tree: it has no other abstract form)
+        if v["n"] == "list":
+            x = [1]
+            x.append(x)
+            return x
+        if v["n"] == "dict":
+            x = {"a": 1}
+            x["self"] = x
+            return x
+        if v["n"] == "list_in_tuple":
+            x = []
+            x.append((x, 1))
+            return x
+        raise ValueError("unknown self-containing value %r" % (v["n"],))
     if k == "str":
         return resolve_class(v["a"][0]["n"], table)(v["n"]) if v["a"] else v["n"]
     if k == "atom":
